@@ -24,6 +24,21 @@ CHECKS = {
         note='Trusts the reference interpreter for non-limit failures; a >520-byte push inside the script text may be refused at load time (C01 allows that). '
              'Two genuine defects found here were repaired by fix: commits (see known_findings.json).',
         design='5/C10'),
+    'C17': dict(
+        technique='bounded-exhaustive table-driven testing (all operand tuples over a boundary-rich value set) against executable definitions of the 15 functions',
+        text='Every one of the 15 re-enabled opcodes is run on every operand tuple of a boundary-rich value set (V^2, V x offsets^2 for SUBSTR), with and without -z, executed and '
+             'inside an unexecuted branch, for all three script versions and MINIMALDATA on/off; results are compared with Python definitions of the string, bitwise and signed-integer '
+             'functions. A harness death (SIGFPE, assert) is a violation. Exhaustive within the stated value set only.',
+        note='Where the opcode name does not fix a result (rounding of negative quotients, shifts of negatives or by counts outside 0..62, operands wider than 4 bytes) any value or '
+             'script error is accepted. Four genuine defects found here were repaired by fix: commits.',
+        design='5/C17'),
+    'C18': dict(
+        technique='bounded-exhaustive enumeration (native, multi-threaded) against an independent arithmetic definition + Hypothesis round-trip/differential checks of the conversions',
+        text='All byte strings of length 0..3, all 2^32 strings of length 4 (thorough; 2^24 stratified in quick), stratified 5-byte strings and all integers in [-2^31, 2^31] '
+             '(thorough) are pushed through the tree codec (decode, minimality verdict, re-encode, encode/decode round trip) and compared with a sign-magnitude definition written '
+             'independently; the debugger conversions (decimal/0x literals, int()/hex(), tf int, tf hex) are compared with the same codec on generated values. Exhaustive for lengths 0..4 in the thorough tier.',
+        note='Trusts the two independent codec definitions (native/c18_enum.cpp, vf/ref/script.py).',
+        design='5/C18'),
 }
 
 ALL = ['C%02d' % i for i in range(1, 19)]
